@@ -214,6 +214,14 @@ class BatchSimulation():
 
             self._log_progress(i_trial, n_trials)
 
+        # Nothing left to run: make sure that the trials held in memory
+        # (an interrupted run may have stopped before saving them) are in
+        # the output file.
+        if min_current_trial >= n_trials and any(
+            simulation.n_results > 0 for simulation in self._simulations
+        ):
+            self.save_results()
+
         # for simulation in self._simulations:
         #     if self.verbose:
         #         print(f"\nPost-processing {simulation.label}")
